@@ -9,7 +9,7 @@ for d in seeded/C??-?; do
   [ -f checks/$(echo $prop | tr C c).py ] || { echo "$id: no check"; continue; }
   (cd /repo && git diff --quiet) || { echo "/repo not clean"; exit 9; }
   git -C /repo apply /verif/$d/patch.diff || { echo "$id: patch does not apply"; continue; }
-  out=$(./check $prop 2>&1); rc=$?
+  out=$(VERIF_EVIDENCE_DIR=/verif/work/evidence_seeded ./check $prop 2>&1); rc=$?
   git -C /repo checkout -- .
   nv=$(echo "$out" | grep -c "^VIOLATION")
   line=$(echo "$out" | grep "^$prop \[" | tail -1)
